@@ -1,0 +1,63 @@
+//go:build verif
+// +build verif
+
+package wire
+
+// Machine-checked contracts for gvc (see /verif/DESIGN.md). Comment-only file:
+// no executable code, excluded from every normal build.
+
+// Leaf constructors and accessors of Value: executed in place at call sites.
+//@ contract NewValueBool
+//@   inline
+//@ contract NewValueI8
+//@   inline
+//@ contract NewValueDouble
+//@   inline
+//@ contract NewValueI16
+//@   inline
+//@ contract NewValueI32
+//@   inline
+//@ contract NewValueI64
+//@   inline
+//@ contract NewValueBinary
+//@   inline
+//@ contract NewValueStruct
+//@   inline
+//@ contract NewValueMap
+//@   inline
+//@ contract NewValueSet
+//@   inline
+//@ contract NewValueList
+//@   inline
+//@ contract (*Value).Type
+//@   inline
+//@ contract (*Value).GetBool
+//@   inline
+//@ contract (*Value).GetI8
+//@   inline
+//@ contract (*Value).GetI16
+//@   inline
+//@ contract (*Value).GetI32
+//@   inline
+//@ contract (*Value).GetI64
+//@   inline
+//@ contract (*Value).GetDouble
+//@   inline
+//@ contract (*Value).GetBinary
+//@   inline
+//@ contract (*Value).GetStruct
+//@   inline
+
+// unsafe.String over the slice's bytes: the string with the same bytes (trusted: unsafe code).
+//@ contract unsafeBytesToString
+//@   trusted
+//@   modifies nothing
+//@   ensures len(result) == len(b) && forall(k, 0, len(b), result[k] == b[k])
+//@ contract (*Value).GetString
+//@   inline
+//@ contract (*Value).GetMap
+//@   inline
+//@ contract (*Value).GetSet
+//@   inline
+//@ contract (*Value).GetList
+//@   inline
